@@ -9,6 +9,7 @@ import (
 
 	"github.com/goghcrow/yae/parser"
 	"github.com/goghcrow/yae/parser/ast"
+	"github.com/goghcrow/yae/parser/lexer"
 	"github.com/goghcrow/yae/parser/oper"
 	"github.com/goghcrow/yae/parser/pos"
 	"github.com/goghcrow/yae/parser/token"
@@ -222,6 +223,17 @@ func realParse(t opTable, toks []*token.Token) (e ast.Expr, err string) {
 			e, err = nil, fmt.Sprint(r)
 		}
 	}()
+	return parser.NewParser(append([]oper.Operator(nil), t.ops...)).Parse(toks), ""
+}
+
+// realLexParse: the same table, from source text through the real lexer.
+func realLexParse(t opTable, src string) (e ast.Expr, err string) {
+	defer func() {
+		if r := recover(); r != nil {
+			e, err = nil, fmt.Sprint(r)
+		}
+	}()
+	toks := lexer.NewLexer(append([]oper.Operator(nil), t.ops...)).Lex(src)
 	return parser.NewParser(append([]oper.Operator(nil), t.ops...)).Parse(toks), ""
 }
 
@@ -565,6 +577,27 @@ func runC08(c *run.Ctx) {
 				} else if gs := realSexp(got, true, nil); gs != tr.sexp() {
 					c.Violation("law-tree", fmt.Sprintf("fully parenthesised %q under %s parses as %s, not %s", src, t, gs, tr.sexp()), nil)
 				}
+				// and the same text through the real lexer: the tree is still the one
+				// the table dictates (only layouts whose text reads back as the same
+				// lexemes: separators may be empty, and "a" "and" glued is another word)
+				var names []string
+				for _, d := range t.decl {
+					names = append(names, d.Name)
+				}
+				rtoks, rerr := ref.NewRefLexer(names).Lex(src)
+				same := rerr == nil && len(rtoks) == len(lx)
+				for i := 0; same && i < len(lx); i++ {
+					same = rtoks[i].Lexeme == lx[i]
+				}
+				if !same {
+					c.Count("law_texts_ambiguous", 1)
+				} else if got2, err2 := realLexParse(t, src); err2 != "" {
+					c.Violation("law-rejects", fmt.Sprintf("the text %q (fully parenthesised) under %s is rejected: %s (tree %s)", src, t, err2, tr.sexp()), nil)
+				} else if gs := realSexp(got2, true, nil); gs != tr.sexp() {
+					c.Violation("law-tree", fmt.Sprintf("the text %q (fully parenthesised) under %s parses as %s, not %s", src, t, gs, tr.sexp()), nil)
+				} else {
+					c.Count("law_trees_from_text", 1)
+				}
 				// the same token string (and its paren-dropping variants) against the reference parser
 				checkParse(c, t, lx, seps[k%len(seps)])
 				for try := 0; try < 3; try++ {
@@ -702,7 +735,7 @@ func init() {
 		Rule: "(1) every token string of length <= 4 (quick) / <= 5 (thorough) over {a 1 prefix infixl infixr infixn postfix ( ) [ ] { } , : ? .} plus sampled longer ones, exhaustive: true for that space; " +
 			"(2) random operator tables (3-8 operators, all fixities, binding powers 0.5..14 incl. values between and equal to built-in levels, equal powers with different associativity, powers scaled x3/x10/x100, one spelling as prefix and infix; symbolic and identifier-like names) and the built-in table, random trees to depth 4 rendered fully parenthesised (law oracle: parse == tree) and with parenthesis pairs dropped one by one; " +
 			"(3) every ordered pair / triple of infix operators of each table and non-associative chains in 11+ contexts; (4) token-level mutations (malformed input, undecodable literals). " +
-			"monitors: accept/reject + tree vs an independent reference precedence parser; node-by-node source span (Idx, IdxEnd, Line, Col) vs the span of the tokens the reference consumed. distinct = distinct accepted tree per table",
+			"every law tree also from its source text through the real lexer; monitors: accept/reject + tree vs an independent reference precedence parser; node-by-node source span (Idx, IdxEnd, Line, Col) vs the span of the tokens the reference consumed. distinct = distinct accepted tree per table",
 		Assume:    []string{"tokens are built by the harness with exact positions (the lexer is C09's subject)", "reference parser mirrors the documented permissiveness: trailing comma in list/map/object not in arguments, any token as member name"},
 		MinEvents: 50000, EventKey: "token_strings_parsed",
 	})
